@@ -103,6 +103,11 @@ func witnesses(ops hx.Counter, withPoll bool) []Case {
 	tag("collective_missing_pool_low_bond", runCollective(CollectiveParams{Seed: 9142, Bond: 20_000_000_000, PoolExists: false, Quorum: "2", ClaimPeriod: 1 << 63, Donation: "1", Dts: []int64{5, 14500, 90000, 5}, Withdraw: false}, ops))
 	tag("basket_honest", runBasket(BasketParams{Seed: 9151, LimitsPeriod: 86400}, ops))
 	tag("module_address_send", runModuleSend(9161, ops))
+	// recovery-token branch of the proposer payout: holders own all / part of the RR supply, odd rewards in several denoms
+	rrFees := []string{"102ukex", "103ukex", "11ubtc", "1007xeth", "106ukex", "105ukex,11ubtc", "107ukex"}
+	tag("recovery_rewards_two_halves", runRR(RRParams{Seed: 9171, Snap: 1, Holders: []string{"5000000000000", "5000000000000"}, NBlocks: 24, Fees: rrFees, Claim: 4, Burn: true}, ops))
+	tag("recovery_rewards_three_thirds_default_snap", runRR(RRParams{Seed: 9172, Snap: 1000, Holders: []string{"3333333333333", "3333333333333", "3333333333334"}, NBlocks: 30, Fees: rrFees, Claim: 5}, ops))
+	tag("recovery_rewards_partial_supply_issuer_holds_rest", runRR(RRParams{Seed: 9173, Snap: 1, Holders: []string{"1000000", "2500000000000"}, KeepSelf: true, NBlocks: 20, Fees: rrFees, Claim: 3}, ops))
 	// the sanctioned halt
 	tag("upgrade_halt_sanctioned", runUpgrade(UpgradeParams{Seed: 9061, Instate: false, Skip: false}, ops))
 	tag("upgrade_instate_skip_no_halt", runUpgrade(UpgradeParams{Seed: 9062, Instate: true, Skip: true}, ops))
